@@ -164,7 +164,7 @@ def lattice(quick):
     if quick:
         for d in tops(a_quick, (1, 2)):
             yield d
-        mb = ncore + arrays_of(ncore, (1, 2, 3)) + nq + arrays_of(nq, (2,))
+        mb = ncore + arrays_of(ncore, (1, 3)) + nq + arrays_of(nq, (2,))
         for d in tops(mb, (1, 2), need_nested=True):
             yield d
         return
@@ -542,6 +542,389 @@ def check_decls(decls, workdir, name):
     return out
 
 
+# ------------------------------------------------------------------ incremental-declaration histories
+#
+# One CAstTypes + ONE long-lived manager per history; the header is loaded in 1..3 parts and after every part
+# every type mentioned so far is queried (complete or not) and member accesses are translated. Oracles: gcc's
+# numbers for the complete aggregates (a complete aggregate's layout does not depend on how the header was cut)
+# and "same answer as a fresh manager built on the text loaded so far".
+
+HIST_FORMS = ["ptr", "tdinc", "tdptr", "arr"]
+
+
+def hist_scenarios(quick):
+    """Yield (sid, params). N is the tag that may be completed late, U1 points to it, U2/U3 embed it by value."""
+    ncore = NESTED_CORE
+    if quick:
+        bodies = [["char", "long"], ["long double"]]
+        selfs = [0, 1, 2]           # no self pointer / `N *next` as first / last member
+        u1kinds = ["struct"]
+    else:
+        bodies = [[a] for a in ncore] + [[a, b] for a in ncore for b in ncore]
+        selfs = [0, 1, 2]
+        u1kinds = ["struct", "union"]
+    sid = 0
+    for nkind in ("struct", "union"):
+        for body in bodies:
+            for selfp in selfs:
+                for form in HIST_FORMS:
+                    for fwd in (0, 1):
+                        for u1kind in u1kinds:
+                            yield sid, {"nkind": nkind, "body": body, "self": selfp, "form": form, "fwd": fwd,
+                                        "u1kind": u1kind}
+                            sid += 1
+
+
+def hist_items(sid, P):
+    """The four declaration chunks of a scenario, what they define/mention and the accesses they enable."""
+    n, l, p, e, nt, np_ = ("n%d" % sid, "l%d" % sid, "p%d" % sid, "e%d" % sid, "nt%d" % sid, "np%d" % sid)
+    kn = P["nkind"]
+    form = P["form"]
+    members = ["%s m%d;" % (t, i) for i, t in enumerate(P["body"])]
+    nfields = ["m%d" % i for i in range(len(P["body"]))]
+    if P["self"] == 1:
+        members.insert(0, "%s %s *next;" % (kn, n))
+        nfields.insert(0, "next")
+    elif P["self"] == 2:
+        members.append("%s %s *next;" % (kn, n))
+        nfields.append("next")
+    ntext = "%s %s { %s };" % (kn, n, " ".join(members))
+    pre = ["%s %s;" % (kn, n)] if P["fwd"] else []
+    mentions_u1 = [[kn, n, "tag"]]
+    if form == "ptr":
+        head = "%s %s *head;" % (kn, n)
+    elif form == "tdinc":
+        pre.append("typedef %s %s %s;" % (kn, n, nt))
+        head = "%s *head;" % nt
+        mentions_u1.append(["id", nt, "typedef"])
+    elif form == "tdptr":
+        pre.append("typedef %s %s *%s;" % (kn, n, np_))
+        head = "%s head;" % np_
+        mentions_u1.append(["id", np_, "typedef"])
+    else:
+        head = "%s %s *head[2];" % (kn, n)
+    u1 = P["u1kind"]
+    u1text = " ".join(pre + ["%s %s { char tag; %s int count; };" % (u1, l, head)])
+    mentions_u1.append([u1, l, "pointer-user"])
+    first = ("typedef %s %s %s; " % (kn, n, nt)) if form == "tdinc" else ""
+    u2text = "%sstruct %s { char flag; %s first; %s %s owner; %s %s both[2]; };" % (
+        first, p, nt if form == "tdinc" else "%s %s" % (kn, n), u1, l, kn, n)
+    u3text = "union %s { %s %s n; char raw[3]; };" % (e, kn, n)
+    items = {
+        "U1": {"text": u1text, "aggs": [[u1, l, ["tag", "head", "count"]]], "mentions": mentions_u1},
+        "N": {"text": ntext, "aggs": [[kn, n, nfields]], "mentions": [[kn, n, "tag"]]},
+        "U2": {"text": u2text, "aggs": [["struct", p, ["flag", "first", "owner", "both"]]],
+               "mentions": [["struct", p, "value-user"]]},
+        "U3": {"text": u3text, "aggs": [["union", e, ["n", "raw"]]], "mentions": [["union", e, "value-user"]]},
+    }
+    hs = "head[1]" if form == "arr" else "head"
+    hsteps = [["o", l, "head"]] + ([["p", 1]] if form == "arr" else [])
+    last = "m%d" % (len(P["body"]) - 1)
+    acc = [
+        (["U1"], u1, l, "pointer-user", "ptr->count", [["o", l, "count"]], [l, "count"]),
+        (["U1"], u1, l, "pointer-user", "ptr->" + hs, hsteps, 8),
+        (["U1", "N"], u1, l, "pointer-user", "ptr->%s->m0" % hs, hsteps + [["d"], ["o", n, "m0"]], [n, "m0"]),
+        (["N"], kn, n, "tag", "ptr->" + last, [["o", n, last]], [n, last]),
+        (["N", "U2"], "struct", p, "value-user", "ptr->first.m0", [["o", p, "first"], ["o", n, "m0"]], [n, "m0"]),
+        (["N", "U2"], "struct", p, "value-user", "ptr->both[1].%s" % last,
+         [["o", p, "both"], ["e", n, 1], ["o", n, last]], [n, last]),
+        (["U1", "N", "U2"], "struct", p, "value-user", "ptr->owner.%s->m0" % hs,
+         [["o", p, "owner"]] + hsteps + [["d"], ["o", n, "m0"]], [n, "m0"]),
+        (["N", "U3"], "union", e, "value-user", "ptr->n.m0", [["o", e, "n"], ["o", n, "m0"]], [n, "m0"]),
+    ]
+    if P["self"]:
+        acc += [
+            (["U1", "N"], u1, l, "pointer-user", "ptr->%s->next->m0" % hs,
+             hsteps + [["d"], ["o", n, "next"], ["d"], ["o", n, "m0"]], [n, "m0"]),
+            (["N"], kn, n, "tag", "ptr->next->next->" + last,
+             [["o", n, "next"], ["d"], ["o", n, "next"], ["d"], ["o", n, last]], [n, last]),
+        ]
+    return items, acc, [n, l, p, e, nt, np_]
+
+
+HIST_ORDERS = [["U1", "N", "U2", "U3"], ["N", "U1", "U2", "U3"]]
+HIST_SPLITS = [[4], [1, 3], [2, 2], [3, 1], [1, 1, 2], [1, 2, 1], [2, 1, 1]]
+
+
+def hist_cases(sid, P):
+    """Every history of a scenario: 2 declaration orders x every cut into 1..3 consecutive parts."""
+    items, acc, tags = hist_items(sid, P)
+    for order in HIST_ORDERS:
+        for split in HIST_SPLITS:
+            parts, aggs, mentions, where = [], [], [], {}
+            pos = 0
+            for k, cnt in enumerate(split):
+                names = order[pos:pos + cnt]
+                pos += cnt
+                for nm in names:
+                    where[nm] = k
+                parts.append("\n".join(items[nm]["text"] for nm in names))
+                aggs.append([a for nm in names for a in items[nm]["aggs"]])
+                ms = []
+                for nm in names:
+                    for m in items[nm]["mentions"]:
+                        if m not in ms:
+                            ms.append(m)
+                mentions.append(ms)
+            accesses = [[max(where[x] for x in needs), rk, rt, role, c_str, steps, lf]
+                        for needs, rk, rt, role, c_str, steps, lf in acc]
+            yield {"k": "hist", "parts": parts, "aggs": aggs, "mentions": mentions, "accesses": accesses,
+                   "tags": tags, "late": where["N"] > where["U1"],
+                   "scenario": "%s N{%s%s} %s-user form=%s fwd=%d order=%s split=%s" % (
+                       P["nkind"], ",".join(P["body"]), ["", ",self*first", ",self*last"][P["self"]], P["u1kind"],
+                       P["form"], P["fwd"], "-".join(order), split)}
+
+
+def hist_c(text, aggs, tags):
+    """C declarations (natural + a renamed copy under #pragma pack(1)) and the expressions to print."""
+    import re
+    ptext = text
+    for t in sorted(tags, key=lambda x: (-len(x), x)):
+        ptext = re.sub(r"\b%s\b" % re.escape(t), t + "p", ptext)
+    decl = "%s\n#pragma pack(push, 1)\n%s\n#pragma pack(pop)\n" % (text, ptext)
+    exprs = []
+    for suffix in ("", "p"):
+        for kind, tag, fields in aggs:
+            ty = "%s %s%s" % (kind, tag, suffix)
+            exprs += ["sizeof(%s)" % ty, "_Alignof(%s)" % ty]
+            for f in fields:
+                exprs += ["offsetof(%s, %s)" % (ty, f), "sizeof(((%s *)0)->%s)" % (ty, f)]
+    return decl, exprs
+
+
+def hist_parse(vals, pos, aggs):
+    G = {}
+    for mname in ("notpacked", "packed"):
+        sizes, fields = {}, {}
+        for kind, tag, fl in aggs:
+            sizes[tag] = (vals[pos], vals[pos + 1])
+            pos += 2
+            for f in fl:
+                fields[(tag, f)] = (vals[pos], vals[pos + 1])
+                pos += 2
+        G[mname] = (sizes, fields)
+    return G, pos
+
+
+def hist_gcc(blocks, workdir, name):
+    """blocks: list of (text, aggs, tags). One compile; returns the list of G dictionaries."""
+    out = ["#include <stddef.h>", "#include <stdio.h>"]
+    tab = []
+    for text, aggs, tags in blocks:
+        decl, exprs = hist_c(text, aggs, tags)
+        out.append(decl)
+        tab += exprs
+    out.append("static const unsigned long T[] = {\n%s\n};" % ",\n".join(tab))
+    out.append('int main(void) { unsigned long i; for (i = 0; i < sizeof(T) / sizeof(T[0]); i++) '
+               'printf("%lu\\n", T[i]); return 0; }')
+    src = os.path.join(workdir, name + ".c")
+    exe = os.path.join(workdir, name)
+    with open(src, "w") as fd:
+        fd.write("\n".join(out) + "\n")
+    p = subprocess.run(GCC + ["-o", exe, src], stdout=subprocess.PIPE, stderr=subprocess.STDOUT)
+    if p.returncode != 0:
+        raise RuntimeError("gcc failed: %s" % p.stdout.decode(errors="replace")[-2000:])
+    r = subprocess.run([exe], stdout=subprocess.PIPE, stderr=subprocess.STDOUT)
+    vals = [int(x) for x in r.stdout.split()]
+    if r.returncode != 0 or len(vals) != len(tab):
+        raise RuntimeError("history layout program: exit %d, %d values for %d" % (r.returncode, len(vals), len(tab)))
+    os.unlink(src)
+    os.unlink(exe)
+    res = []
+    pos = 0
+    for text, aggs, tags in blocks:
+        G, pos = hist_parse(vals, pos, aggs)
+        res.append(G)
+    return res
+
+
+def objc_dump(objc_mod, o, seen=()):
+    """Structural dump of an ObjC tree (cut at recursion) used to compare two managers."""
+    if isinstance(o, objc_mod.ObjCDecl):
+        return ["decl", o.name, o.size, o.align]
+    if isinstance(o, objc_mod.ObjCPtr):
+        return ["ptr", o.size, o.align, objc_dump(objc_mod, o.objtype, seen)]
+    if isinstance(o, objc_mod.ObjCArray):
+        return ["arr", o.elems, o.size, o.align, objc_dump(objc_mod, o.objtype, seen)]
+    if isinstance(o, (objc_mod.ObjCStruct, objc_mod.ObjCUnion)):
+        key = (o.__class__.__name__, o.name)
+        if key in seen:
+            return ["ref", key[0], key[1], o.size, o.align]
+        return [key[0], o.name, o.size, o.align,
+                [[nm, off, sz, objc_dump(objc_mod, sub, seen + (key,))] for nm, sub, off, sz in o.fields]]
+    return [o.__class__.__name__, o.size, o.align]
+
+
+def hist_typeid(env, kind, tag):
+    if kind == "id":
+        from miasm.core.ctypesmngr import CTypeId
+        return CTypeId(tag)
+    return (env["CTypeStruct"] if kind == "struct" else env["CTypeUnion"])(tag)
+
+
+def run_history(case, G):
+    """Replay one history on one long-lived manager of each kind. Returns (violations, stats)."""
+    env = _env()
+    objc_mod = env["objc"]
+    expr_simp = env["expr_simp"]
+    ExprMem, ExprInt = env["ExprMem"], env["ExprInt"]
+    vs, seen, stats = [], set(), {}
+    rel = "tag-completed-after-query" if case["late"] else "tag-complete-at-first-query"
+
+    def bad(sig, what):
+        if sig not in seen:
+            seen.add(sig)
+            vs.append(violation(sig, "%s [history: %s; parts: %s]" % (what, case["scenario"],
+                                                                     " || ".join(case["parts"])), case))
+
+    def count(k, n=1):
+        stats[k] = stats.get(k, 0) + n
+
+    ptr = env["ExprId"]("ptr", 64)
+    nparts = len(case["parts"])
+    for mname, cls in (("notpacked", objc_mod.CTypesManagerNotPacked), ("packed", objc_mod.CTypesManagerPacked)):
+        sizes, fields = G[mname]
+        ast = env["CAstTypes"]()
+        mngr = cls(ast, env["leafs"]())
+        defined = set()
+        mentioned = []
+        for k in range(nparts):
+            step = "%s manager, after part %d/%d" % (mname, k + 1, nparts)
+            try:
+                ast.add_c_decl(case["parts"][k])
+                ref_ast = env["CAstTypes"]()
+                ref_ast.add_c_decl("\n".join(case["parts"][:k + 1]))
+                ref = cls(ref_ast, env["leafs"]())
+            except Exception as ex:
+                bad("history:load:%s:raise:%s" % (mname, type(ex).__name__), "%s: add_c_decl raised %r" % (step, ex))
+                break
+            count("steps")
+            for a in case["aggs"][k]:
+                defined.add(a[1])
+            for m in case["mentions"][k]:
+                if m not in mentioned:
+                    mentioned.append(m)
+            fl_of = dict((a[1], a) for kk in range(k + 1) for a in case["aggs"][kk])
+            # ---- every type mentioned so far
+            for kind, tag, role in mentioned:
+                tid = hist_typeid(env, kind, tag)
+                try:
+                    o = mngr.get_objc(tid)
+                    o_ref = ref.get_objc(tid)
+                except Exception as ex:
+                    bad("history:get_objc:%s:%s:%s:raise:%s" % (mname, role, rel, type(ex).__name__),
+                        "%s: get_objc(%s %s) raised %r" % (step, kind, tag, ex))
+                    continue
+                count("type_queries")
+                if tag in defined:
+                    gs, ga = sizes[tag]
+                    if (o.size, o.align) != (gs, ga):
+                        bad("history:sizeof-alignof:%s:%s:%s" % (mname, role, rel),
+                            "%s: %s %s has size/align %r, gcc says %r" % (step, kind, tag, (o.size, o.align), (gs, ga)))
+                        continue
+                    got = dict((nm, (off, sz)) for nm, _, off, sz in o.fields)
+                    wrong = [(f, got.get(f), fields[(tag, f)]) for f in fl_of[tag][2] if got.get(f) != fields[(tag, f)]]
+                    if wrong:
+                        bad("history:offsetof:%s:%s:%s" % (mname, role, rel),
+                            "%s: %s %s member %s has (offset, size) %r, gcc says %r" % ((step, kind, tag) + wrong[0]))
+                        continue
+                    count("gcc_compared")
+                if objc_dump(objc_mod, o) != objc_dump(objc_mod, o_ref):
+                    bad("history:differs-from-fresh-manager:%s:%s:%s" % (mname, role, rel),
+                        "%s: get_objc(%s %s) = %r, a manager built on the same text gives %r"
+                        % (step, kind, tag, objc_dump(objc_mod, o), objc_dump(objc_mod, o_ref)))
+            # ---- member accesses through a pointer to the aggregates complete so far
+            for first, rk, rt, role, c_str, steps, lf in case["accesses"]:
+                if first > k:
+                    continue
+                acls = "%s:%s" % (role, "through-pointer" if ["d"] in steps else "direct")
+                where = "%s: (%s %s *)ptr, %s" % (step, rk, rt, c_str)
+                try:
+                    expected = ptr
+                    off = 0
+                    for st in steps:
+                        if st[0] == "o":
+                            off += fields[(st[1], st[2])][0]
+                        elif st[0] == "e":
+                            off += st[2] * sizes[st[1]][0]
+                        elif st[0] == "p":
+                            off += 8 * st[1]
+                        else:
+                            expected = ExprMem(expected + ExprInt(off, 64), 64)
+                            off = 0
+                    lsize = lf if isinstance(lf, int) else fields[(lf[0], lf[1])][1]
+                    expected = expr_simp(ExprMem(expected + ExprInt(off, 64), 8 * lsize))
+                    pt = mngr.get_objc(env["CTypePtr"](hist_typeid(env, rk, rt)))
+                    handler = objc_mod.CHandler(mngr, expr_types={ptr: set([pt])}, C_types={"ptr": pt})
+                    e, ty = c2e(objc_mod, handler, c_str)
+                    es = expr_simp(e)
+                except (Exception, AssertionError) as ex:
+                    bad("history:access:c_to_expr:%s:%s:%s:raise:%s" % (mname, acls, rel, type(ex).__name__),
+                        "%s: C -> expression raised %r" % (where, ex))
+                    continue
+                count("accesses")
+                if es != expected:
+                    bad("history:access:c_to_expr:%s:%s:%s:wrong-expression" % (mname, acls, rel),
+                        "%s: gives %s, gcc's layout gives %s" % (where, es, expected))
+                    continue
+                if k != nparts - 1:
+                    continue
+                try:
+                    accs = handler.expr_to_c_and_types(es)
+                    back = [(c2, t2) + tuple(c2e(objc_mod, handler, c2)) for c2, t2 in sorted(accs, key=lambda a: a[0])]
+                except (Exception, AssertionError) as ex:
+                    bad("history:access:expr_to_c:%s:%s:%s:raise:%s" % (mname, acls, rel, type(ex).__name__),
+                        "%s = %s: expression -> C raised %r" % (where, es, ex))
+                    continue
+                count("round_trips")
+                if not back or any(expr_simp(e2) != es for _, _, e2, _ in back) or \
+                        not any(t2 == ty and ty2 == ty for _, t2, _, ty2 in back):
+                    bad("history:access:expr_to_c:%s:%s:%s:no-equivalent-access" % (mname, acls, rel),
+                        "%s = %s of type %s comes back as %s" % (where, es, ty, [(c2, str(t2)) for c2, t2, _, _ in back]))
+    return vs, stats
+
+
+def _hist_shard(args):
+    quick, idx, nsh, workdir = args
+    warnings.simplefilter("ignore")
+    scen = [(sid, P) for sid, P in hist_scenarios(quick) if sid % nsh == idx]
+    blocks = []
+    for sid, P in scen:
+        items, _, tags = hist_items(sid, P)
+        order = HIST_ORDERS[0]
+        blocks.append(("\n".join(items[nm]["text"] for nm in order), [a for nm in order for a in items[nm]["aggs"]],
+                       tags))
+    Gs = hist_gcc(blocks, workdir, "hist%d" % idx) if blocks else []
+    n = nt = 0
+    by_sig = {}
+    stats = {}
+    sample = None
+    for (sid, P), G in zip(scen, Gs):
+        for case in hist_cases(sid, P):
+            vs, st = run_history(case, G)
+            n += 1
+            nt += 1 if case["late"] else 0
+            for k, v in st.items():
+                stats[k] = stats.get(k, 0) + v
+            for v in vs:
+                ent = by_sig.setdefault(v["sig"], [0, v])
+                ent[0] += 1
+            if sample is None and case["late"] and len(case["parts"]) == 3:
+                sample = {"history": case["scenario"], "parts": case["parts"]}
+    return n, nt, by_sig, stats, sample
+
+
+def replay_history(case):
+    warnings.simplefilter("ignore")
+    workdir = tempfile.mkdtemp(prefix="c35_")
+    try:
+        aggs = [a for part in case["aggs"] for a in part]
+        G = hist_gcc([("\n".join(case["parts"]), aggs, case["tags"])], workdir, "replay")[0]
+    finally:
+        shutil.rmtree(workdir, ignore_errors=True)
+    return run_history(case, G)[0]
+
+
 def _shard(args):
     quick, idx, nsh, workdir = args
     warnings.simplefilter("ignore")
@@ -580,6 +963,8 @@ def run(ctx):
     workdir = tempfile.mkdtemp(prefix="c35_")
     try:
         res = ctx.pmap(_shard, [(quick, i, nsh, workdir) for i in range(nsh)])
+        nsh_h = 16 if quick else 64
+        hres = ctx.pmap(_hist_shard, [(quick, i, nsh_h, workdir) for i in range(nsh_h)])
     finally:
         shutil.rmtree(workdir, ignore_errors=True)
     n = sum(r[0] for r in res)
@@ -596,13 +981,25 @@ def run(ctx):
             sig_cases[sig] = sig_cases.get(sig, 0) + cnt
             if sig not in first or len(repr(v["case"])) < len(repr(first[sig]["case"])):
                 first[sig] = v
+    hstats = {}
+    for r in hres:
+        for k, v in r[3].items():
+            hstats[k] = hstats.get(k, 0) + v
+        for sig, (cnt, v) in r[2].items():
+            sig_cases[sig] = sig_cases.get(sig, 0) + cnt
+            if sig not in first or len(repr(v["case"])) < len(repr(first[sig]["case"])):
+                first[sig] = v
     for sig in sorted(first):
         ctx.add_violations([first[sig]])
+    nh = sum(r[0] for r in hres)
+    nh_late = sum(r[1] for r in hres)
     cov = {
-        "evaluations": n * 2,
+        "evaluations": n * 2 + nh * 2,
         "declarations": n,
-        "distinct_nontrivial": nt,
-        "samples": [r[5] for r in res if r[5]][:4],
+        "histories": nh,
+        "histories_tag_completed_after_a_query": nh_late,
+        "distinct_nontrivial": nt + nh_late,
+        "samples": [r[5] for r in res if r[5]][:3] + [r[4] for r in hres if r[4]][:2],
         "exhaustive": True,
         "bounds": bounds_for(quick),
         "distinct_size_align_classes": len(classes),
@@ -610,11 +1007,15 @@ def run(ctx):
     }
     for k, v in stats.items():
         cov["n_" + k] = v
+    for k, v in hstats.items():
+        cov["n_history_" + k] = v
     return cov
 
 
 def replay(case):
     warnings.simplefilter("ignore")
+    if case.get("k") == "hist":
+        return replay_history(case)
     spec = case["spec"]
     workdir = tempfile.mkdtemp(prefix="c35_")
     try:
